@@ -2,7 +2,7 @@
 (***************************************************************************)
 (* Validation of the probing of the real service (pv/surface.py) against   *)
 (* the tables of Surface.tla.  NDJSON lines of three kinds:                *)
-(*  route   [route, method, vkind, v, status, hver, vary]                  *)
+(*  route   [route, method, vkind, v, status, hver, vary, cache, anycache] *)
 (*  feature [fid, v, present]                                              *)
 (*  policy  [route, method, caller, ovrule, ovkind, status, admin_status,  *)
 (*           changed, leaked]                                              *)
@@ -22,6 +22,10 @@ RouteVerdict(ln) ==
 \cup (IF d = "handled" /\ ln.status \in {404, 405, 406} THEN {"C14_should_be_available"} ELSE {})
 \cup (IF ln.status # 401 /\ ln.hver # ln.v THEN {"C14_version_header"} ELSE {})
 \cup (IF ln.status # 401 /\ ~ln.vary THEN {"C14_vary_header"} ELSE {})
+\* 1.15: last-modified and cache-control: no-cache on every GET response
+\cup (IF d = "handled" /\ ln.method = "GET" /\ ln.status \in {200, 204}
+         /\ ((ln.v >= CacheHeadersFrom /\ ~ln.cache) \/ (ln.v < CacheHeadersFrom /\ ln.anycache))
+      THEN {"C14_cache_headers"} ELSE {})
 
 FeatureVerdict(ln) ==
   IF ln.present = Present(ln.fid, ln.v) THEN {}
